@@ -378,6 +378,15 @@ pub fn base_raw(quick: bool) -> Vec<Gen> {
         long.push(Tok::Match(258, 258 + i));
     }
     v.push(gen("long(33000 lits + far matches)".into(), &[Plan::DynamicAuto(long)]));
+    // > 3 windows of output made of far back-references only (a 20000-byte block repeated): every call after the first
+    // window decodes matches that reach across whatever the previous calls left in the window
+    {
+        let mut t: Vec<Tok> = (0..20000u32).map(|i| Tok::Lit((i.wrapping_mul(2246822519) >> 15) as u8)).collect();
+        for _ in 0..400 {
+            t.push(Tok::Match(258, 20000));
+        }
+        v.push(gen("long(20000 lits + 400 x match(258,20000))".into(), &[Plan::DynamicAuto(t)]));
+    }
     v.push(gen("stored(65535)+fixed".into(), &[Plan::Stored { data: lcg_bytes(4, 65535), bad_nlen: false }, Plan::Fixed(vec![Tok::Match(258, 65535 - 40000)])]));
     if !quick {
         let mut rep = vec![Tok::Lit(b'z')];
